@@ -86,15 +86,105 @@ Qed.
 Lemma map_snd_combine {A B} : forall (l1 : list A) (l2 : list B), length l2 = length l1 -> map snd (combine l1 l2) = l2.
 Proof. induction l1 as [|a l1 IH]; intros [|b l2] H; cbn in *; try reflexivity; try discriminate. f_equal. apply IH. lia. Qed.
 
+(* ================= what the open cells of reference slots must hold ================= *)
+Definition stat_len_of (fs : list ty) : Z := sumz (map (fun f => match csize f with Some s => slot s | None => 0 end) (filter is_static fs)).
+Definition szs (l : list (list cell)) : list Z := map (fun e => slot (len e)) l.
+Definition es_mem_of (sh : list Z) (order : list nat) (es : list (list cell)) : list (list cell) :=
+  map (fun p => nth (Z.to_nat (logical_of_mem sh order p)) es []) (mem_positions sh).
+(* offset (relative to the array) of logical item c *)
+Definition item_pos (item : ty) (shape : list (option Z)) (order : list nat) (sh : list Z) (es : list (list cell)) (c : nat) : Z :=
+  let mp := Perm.mem_pos sh order (unpos sh (Z.of_nat c)) in
+  match csize item with
+  | Some isz => arr_header true shape + isz * mp
+  | None => arr_header false shape + 8 * prod sh + sumz (firstn (Z.to_nat mp) (szs (es_mem_of sh order es)))
+  end.
+
+(* [targets_ok t v m off]: every reference slot of the object of type t and value v lying at off in m
+   holds the null word (for VNull) or an offset rel such that the referent's image sits at slot+rel
+   (recursively); union references also hold the member index.  Positions of the parts are those of the
+   image (pure arithmetic on image lengths).  Trivially true for reference-free types. *)
+Fixpoint targets_ok (t : ty) (v : val) (m : mem) (off : Z) {struct t} : Prop :=
+  match t, v with
+  | TRef _, VNull => in_rangeb m off 8 = true /\ rd64 m off = NULLVALUE
+  | TRef target, VRef w =>
+      in_rangeb m off 8 = true /\ rd64 m off <> NULLVALUE /\
+      exists timg, enc target w = Some timg /\ sits timg m (off + rd64 m off) /\ len timg < 2^62 /\ targets_ok target w m (off + rd64 m off)
+  | TUnion _, VNull => in_rangeb m off 16 = true /\ rd64 m off = NULLVALUE /\ rd64 m (off + 8) = -1
+  | TUnion ms, VMember k w =>
+      in_rangeb m off 16 = true /\ rd64 m off <> NULLVALUE /\ rd64 m (off + 8) = Z.of_nat k /\
+      (fix pick (ms : list ty) (k : nat) : Prop :=
+         match ms, k with
+         | mt :: _, O => exists timg, enc mt w = Some timg /\ sits timg m (off + rd64 m off) /\ len timg < 2^62 /\ targets_ok mt w m (off + rd64 m off)
+         | _ :: tl, S k' => pick tl k'
+         | [], _ => False
+         end) ms k
+  | TStruct fs, VStruct vs =>
+      if forallb is_static fs then
+        (fix go (fs : list ty) (vs : list val) (o : Z) : Prop :=
+           match fs, vs with
+           | [], [] => True
+           | f :: fs', w :: vs' => targets_ok f w m o /\ match enc f w with Some e => go fs' vs' (o + slot (len e)) | None => False end
+           | _, _ => False
+           end) fs vs off
+      else
+        (fix go (fs : list ty) (vs : list val) (so dnext : Z) : Prop :=
+           match fs, vs with
+           | [], [] => True
+           | f :: fs', w :: vs' =>
+               match enc f w with
+               | Some e => if is_static f then targets_ok f w m (off + so) /\ go fs' vs' (so + slot (len e)) dnext
+                           else targets_ok f w m (off + dnext) /\ go fs' vs' so (dnext + slot (len e))
+               | None => False
+               end
+           | _, _ => False
+           end) fs vs 8 (8 + stat_len_of fs + 8 * (len fs - len (filter is_static fs) - 1))
+  | TArray item shape order, VArr sh items =>
+      match seqopt (map (enc item) items) with
+      | Some es => forall c, (c < length items)%nat -> targets_ok item (nth c items VNull) m (off + item_pos item shape order sh es c)
+      | None => False
+      end
+  | _, _ => True
+  end.
+
+Definition tok_static_list (m : mem) : list ty -> list val -> Z -> Prop :=
+  fix go (fs : list ty) (vs : list val) (o : Z) : Prop :=
+    match fs, vs with
+    | [], [] => True
+    | f :: fs', w :: vs' => targets_ok f w m o /\ match enc f w with Some e => go fs' vs' (o + slot (len e)) | None => False end
+    | _, _ => False
+    end.
+Definition tok_dyn_list (m : mem) (off : Z) : list ty -> list val -> Z -> Z -> Prop :=
+  fix go (fs : list ty) (vs : list val) (so dnext : Z) : Prop :=
+    match fs, vs with
+    | [], [] => True
+    | f :: fs', w :: vs' =>
+        match enc f w with
+        | Some e => if is_static f then targets_ok f w m (off + so) /\ go fs' vs' (so + slot (len e)) dnext
+                    else targets_ok f w m (off + dnext) /\ go fs' vs' so (dnext + slot (len e))
+        | None => False
+        end
+    | _, _ => False
+    end.
+Lemma targets_ok_struct_eq fs vs m off : targets_ok (TStruct fs) (VStruct vs) m off =
+  if forallb is_static fs then tok_static_list m fs vs off
+  else tok_dyn_list m off fs vs 8 (8 + stat_len_of fs + 8 * (len fs - len (filter is_static fs) - 1)).
+Proof. reflexivity. Qed.
+Lemma targets_ok_array_eq item shape order sh items m off : targets_ok (TArray item shape order) (VArr sh items) m off =
+  match seqopt (map (enc item) items) with
+  | Some es => forall c, (c < length items)%nat -> targets_ok item (nth c items VNull) m (off + item_pos item shape order sh es c)
+  | None => False
+  end.
+Proof. reflexivity. Qed.
+
 (* ================= the statement ================= *)
 Definition RT (t : ty) : Prop := forall v img m off,
-  enc t v = Some img -> sits img m off -> len img < 2^62 -> dec t m off = Some (v, len img).
+  enc t v = Some img -> sits img m off -> len img < 2^62 -> targets_ok t v m off -> dec t m off = Some (v, len img).
 
 Lemma RT_scalar k : RT (TScalar k).
-Proof. intros v img m off H Hs _. destruct v as [bs| | | | | |]; try discriminate. eapply dec_enc_scalar; eassumption. Qed.
+Proof. intros v img m off H Hs _ _. destruct v as [bs| | | | | |]; try discriminate. eapply dec_enc_scalar; eassumption. Qed.
 Lemma RT_string : RT TString.
 Proof.
-  intros v img m off H Hs Hl. destruct v as [|bs size| | | | |]; try discriminate.
+  intros v img m off H Hs Hl _. destruct v as [|bs size| | | | |]; try discriminate.
   assert (Hsz : size < 2^63).
   { cbn [enc] in H. destruct ((8 + len bs + 1 <=? size) && _) eqn:E; [|discriminate].
     assert (Himg : img = bytes (enc64 size) ++ bytes bs ++ bytes (repeat 0 (Z.to_nat (size - 8 - len bs)))) by congruence. subst img.
@@ -110,17 +200,19 @@ Proof. cbn [map concat]. rewrite len_app, len_padslot. reflexivity. Qed.
 
 Lemma dec_static_list_ok : forall fs, Forall RT fs -> forall vs es m o,
   enc_list fs vs = Some es -> sits (concat (map padslot es)) m o -> len (concat (map padslot es)) < 2^62 ->
+  tok_static_list m fs vs o ->
   dec_static_list m fs o = Some (vs, o + len (concat (map padslot es))).
 Proof.
-  induction fs as [|f fs IH]; intros HF vs es m o He Hs Hl.
+  induction fs as [|f fs IH]; intros HF vs es m o He Hs Hl Ht.
   - destruct vs; cbn in He; [|discriminate]. inversion He; subst. cbn. f_equal. f_equal. change (len (@nil cell)) with 0. lia.
   - destruct vs as [|v vs]; cbn in He; [discriminate|].
     destruct (enc f v) as [e|] eqn:Ee; [|discriminate]. destruct (enc_list fs vs) as [r|] eqn:Er; [|discriminate].
     inversion He; subst es. clear He. inversion HF as [|? ? Hf HFt]; subst.
     rewrite len_concat_padslot_cons in Hl. cbn [map concat] in Hs. apply sits_padslot in Hs. destruct Hs as [S1 S2].
     pose proof (slot_spec (len e)) as [[A _] _]. pose proof (len_nonneg (concat (map padslot r))) as Ln. pose proof (len_nonneg e).
-    cbn [dec_static_list]. rewrite (Hf v e m o Ee S1 ltac:(lia)). cbn [fst snd].
-    rewrite (IH HFt vs r m (o + slot (len e)) Er S2 ltac:(lia)). cbn [fst snd].
+    cbn [tok_static_list] in Ht. rewrite Ee in Ht. destruct Ht as [Ht1 Ht2].
+    cbn [dec_static_list]. rewrite (Hf v e m o Ee S1 ltac:(lia) Ht1). cbn [fst snd].
+    rewrite (IH HFt vs r m (o + slot (len e)) Er S2 ltac:(lia) Ht2). cbn [fst snd].
     rewrite len_concat_padslot_cons. f_equal. f_equal. lia.
 Qed.
 
@@ -135,14 +227,15 @@ Qed.
 
 Lemma RT_struct_static fs : Forall RT fs -> forallb is_static fs = true -> RT (TStruct fs).
 Proof.
-  intros HF Hst v img m off H Hs Hl. destruct v as [| |vs| | | |]; try discriminate.
+  intros HF Hst v img m off H Hs Hl Ht. destruct v as [| |vs| | | |]; try discriminate.
+  rewrite targets_ok_struct_eq, Hst in Ht.
   rewrite enc_struct_eq in H. destruct (enc_list fs vs) as [es|] eqn:Ee; [|discriminate]. inversion H; subst img. clear H.
   destruct (enc_list_length _ _ _ Ee) as [L1 L2].
   assert (Himg : enc_struct fs es = concat (map padslot es)).
   { unfold enc_struct. rewrite (combine_filter_static fs es L1 Hst). rewrite <- (map_snd_combine fs es L1) at 2.
     rewrite map_map. reflexivity. }
   rewrite Himg in *. rewrite (dec_struct_static_eq fs m off (forallb_static_ndyn fs Hst)).
-  rewrite (dec_static_list_ok fs HF vs es m off Ee Hs Hl). cbn [fst snd]. f_equal. f_equal. lia.
+  rewrite (dec_static_list_ok fs HF vs es m off Ee Hs Hl Ht). cbn [fst snd]. f_equal. f_equal. lia.
 Qed.
 
 (* ================= words in memory ================= *)
@@ -363,8 +456,10 @@ Proof.
     assert (Hisz : 0 <= isz * prod sh) by (rewrite <- Hlen; apply len_nonneg).
     pose proof (slot_spec (isz * prod sh)) as [[A B] _].
     rewrite Hlen. cbn [app]. unfold padto, pad. rewrite len_app, Hlen, len_repeat by lia. lia.
-  - intros t _ v img s H _. destruct v; discriminate.
-  - intros ms _ v img s H _. destruct v; discriminate.
+  - intros t _ v img s H Hc. cbn [csize] in Hc. inversion Hc; subst s. destruct v as [| | | | |w|]; try discriminate; cbn [enc] in H; inversion H; reflexivity.
+  - intros ms _ v img s H Hc. cbn [csize] in Hc. inversion Hc; subst s. destruct v as [| | | | | |k w]; try discriminate; cbn [enc] in H.
+    + inversion H; reflexivity.
+    + destruct (k <? length ms)%nat; [inversion H; reflexivity|discriminate].
 Qed.
 
 (* ================= arrays of static items ================= *)
@@ -396,10 +491,11 @@ Lemma items_static_dec item shape order isz sh items es m base :
   len items = prod sh -> seqopt (map (enc item) items) = Some es ->
   sits (concat (map (fun p => nth (Z.to_nat (logical_of_mem sh order p)) es []) (mem_positions sh))) m base ->
   isz * prod sh < 2^62 ->
+  (forall c, (c < length items)%nat -> targets_ok item (nth c items VNull) m (base + isz * Perm.mem_pos sh order (unpos sh (Z.of_nat c)))) ->
   forall c, (c < Z.to_nat (prod sh))%nat ->
   dec item m (base + dot (unpos sh (Z.of_nat c)) (get_strides sh order isz)) = Some (nth c items VNull, isz).
 Proof.
-  intros HR Ci Gs Gp Gn Ee SB Hb c Hc.
+  intros HR Ci Gs Gp Gn Ee SB Hb Htok c Hc.
   pose proof (es_mem_uniform item shape order sh items es isz (SZ_all item) Ci Gs Gp Gn Ee) as Hu.
   set (es_mem := map (fun p => nth (Z.to_nat (logical_of_mem sh order p)) es []) (mem_positions sh)) in *.
   destruct (lom_of_idx shape sh order (Z.of_nat c) Gs Gp ltac:(lia)) as [Hmp [Hlom Hdot]]. cbv zeta in Hmp, Hlom, Hdot.
@@ -415,7 +511,7 @@ Proof.
   destruct (seqopt_map_spec (enc item) VNull [] items es Ee) as [L N].
   assert (Hci : (c < length items)%nat) by (unfold len in Gn; lia).
   pose proof (N c Hci) as Hen. pose proof (SZ_all item _ _ _ Hen Ci) as Hle.
-  rewrite (HR _ _ m _ Hen Sx); [rewrite Hle; reflexivity|]. rewrite Hle.
+  rewrite (HR _ _ m _ Hen Sx); [rewrite Hle; reflexivity| |apply (Htok c Hci)]. rewrite Hle.
   assert (0 <= isz) by (rewrite <- Hle; apply len_nonneg). nia.
 Qed.
 
@@ -424,21 +520,23 @@ Lemma items_static_seqopt item shape order isz sh items es m base :
   len items = prod sh -> seqopt (map (enc item) items) = Some es ->
   sits (concat (map (fun p => nth (Z.to_nat (logical_of_mem sh order p)) es []) (mem_positions sh))) m base ->
   isz * prod sh < 2^62 ->
+  (forall c, (c < length items)%nat -> targets_ok item (nth c items VNull) m (base + isz * Perm.mem_pos sh order (unpos sh (Z.of_nat c)))) ->
   seqopt (map (fun idx : list Z => match dec item m (base + dot idx (get_strides sh order isz)) with Some vs => Some (fst vs) | None => None end)
               (map (fun c : nat => unpos sh (Z.of_nat c)) (seq 0 (Z.to_nat (prod sh))))) = Some items.
 Proof.
-  intros HR Ci Gs Gp Gn Ee SB Hb. rewrite map_map.
+  intros HR Ci Gs Gp Gn Ee SB Hb Htok. rewrite map_map.
   apply (seqopt_map_intro _ O VNull); [rewrite seq_length; unfold len in Gn; lia|].
   intros i Hi. rewrite seq_length in Hi. rewrite seq_nth by exact Hi. cbn [Nat.add].
-  rewrite (items_static_dec item shape order isz sh items es m base HR Ci Gs Gp Gn Ee SB Hb i Hi). reflexivity.
+  rewrite (items_static_dec item shape order isz sh items es m base HR Ci Gs Gp Gn Ee SB Hb Htok i Hi). reflexivity.
 Qed.
 
 Lemma RT_array_static item shape order isz : RT item -> csize item = Some isz ->
   forall sh items img m off,
   enc (TArray item shape order) (VArr sh items) = Some img -> sits img m off -> len img < 2^62 ->
+  targets_ok (TArray item shape order) (VArr sh items) m off ->
   dec (TArray item shape order) m off = Some (VArr sh items, len img).
 Proof.
-  intros HR Ci sh items img m off H Hs Hl.
+  intros HR Ci sh items img m off H Hs Hl Htok0. rewrite targets_ok_array_eq in Htok0.
   cbn [enc] in H. destruct (shape_ok shape sh && perm_ok order (length shape) && (len items =? prod sh) && words_fit item shape order sh) eqn:G; [|discriminate].
   apply andb_prop in G. destruct G as [G Gw].
   apply andb_prop in G. destruct G as [G Gn]. apply andb_prop in G. destruct G as [Gs Gp]. apply Z.eqb_eq in Gn.
@@ -477,7 +575,9 @@ Proof.
     rewrite End, rd_words_0. rewrite <- (dyn_dims_nil shape sh Gs End), (fill_dyn_dims _ _ Gs), Gs. cbn [guard].
     change (0 <? 0) with false. cbn [andb negb orb guard]. fold total.
     rewrite guard_true by (apply (sits_in_range _ _ _) in SB; rewrite Hlimg in SB; replace (off + 0) with off in SB by lia; replace total with (total - hdr) by lia; exact SB).
-    rewrite (items_static_seqopt item shape order isz sh items es m (off + hdr) HR Ci Gs Gp Gn Ee); [f_equal; f_equal; lia| |exact Hib].
+    rewrite (items_static_seqopt item shape order isz sh items es m (off + hdr) HR Ci Gs Gp Gn Ee); [f_equal; f_equal; lia| |exact Hib|
+      intros c Hc; specialize (Htok0 c Hc); unfold item_pos in Htok0; rewrite Ci in Htok0;
+      replace (off + hdr + isz * Perm.mem_pos sh order (unpos sh (Z.of_nat c))) with (off + (arr_header true shape + isz * Perm.mem_pos sh order (unpos sh (Z.of_nat c)))) by (unfold hdr; lia); exact Htok0].
     apply Hbody. replace (off + hdr) with (off + 0) by lia. exact SB.
   - apply Z.eqb_neq in End. assert (Hndp : 0 < ndyn shape) by lia.
     change (concat (map (fun d : Z => bytes (enc64 d)) (dyn_dims shape sh))) with (words (dyn_dims shape sh)) in *.
@@ -500,7 +600,9 @@ Proof.
     rewrite Hg2. cbn [guard].
     rewrite (sits_rd64 total m off ltac:(lia) S0). rewrite Z.eqb_refl. cbn [orb andb].
     rewrite guard_true by (unfold in_rangeb; destruct SB as [? [SBr _]]; destruct S0 as [? _]; rewrite Hlimg in SBr; unfold len in *; lia).
-    rewrite (items_static_seqopt item shape order isz sh items es m (off + hdr) HR Ci Gs Gp Gn Ee); [f_equal; f_equal; lia| |exact Hib].
+    rewrite (items_static_seqopt item shape order isz sh items es m (off + hdr) HR Ci Gs Gp Gn Ee); [f_equal; f_equal; lia| |exact Hib|
+      intros c Hc; specialize (Htok0 c Hc); unfold item_pos in Htok0; rewrite Ci in Htok0;
+      replace (off + hdr + isz * Perm.mem_pos sh order (unpos sh (Z.of_nat c))) with (off + (arr_header true shape + isz * Perm.mem_pos sh order (unpos sh (Z.of_nat c)))) by (unfold hdr; lia); exact Htok0].
     apply Hbody. exact SB.
 Qed.
 
@@ -529,7 +631,6 @@ Definition dec_dyn_list (m : mem) (off stat_len : Z) : list ty -> Z -> Z -> Z ->
           end
     end.
 
-Definition stat_len_of (fs : list ty) : Z := sumz (map (fun f => match csize f with Some s => slot s | None => 0 end) (filter is_static fs)).
 
 Lemma dec_struct_dyn_eq fs m off : len fs - len (filter is_static fs) =? 0 = false ->
   dec (TStruct fs) m off =
@@ -590,19 +691,21 @@ Lemma dec_dyn_list_ok m off stat_len : forall fs, Forall RT fs -> forall vs es s
   (forall j, (j < length (psz (dpairs fs es)))%nat -> 1 <= k + Z.of_nat j ->
      rd64 m (off + 8 + stat_len + 8 * (k + Z.of_nat j - 1)) = dnext + sumz (firstn j (psz (dpairs fs es)))) ->
   0 <= k -> dnext mod 8 = 0 -> sumz (psz (spairs fs es)) < 2^62 -> sumz (psz (dpairs fs es)) < 2^62 ->
+  tok_dyn_list m off fs vs so dnext ->
   dec_dyn_list m off stat_len fs so k dnext = Some (vs, dnext + sumz (psz (dpairs fs es))).
 Proof.
-  induction fs as [|f fs IH]; intros HF vs es so k dnext He Ss Sd Ht Hk Hm Bs Bd.
+  induction fs as [|f fs IH]; intros HF vs es so k dnext He Ss Sd Ht Hk Hm Bs Bd Htok.
   - destruct vs; cbn in He; [|discriminate]. inversion He; subst. cbn. f_equal. f_equal. lia.
   - destruct vs as [|v vs]; cbn in He; [discriminate|].
     destruct (enc f v) as [e|] eqn:Ee; [|discriminate]. destruct (enc_list fs vs) as [r|] eqn:Er; [|discriminate].
     inversion He; subst es. clear He. inversion HF as [|? ? Hf HFt]; subst.
     pose proof (slot_spec (len e)) as [[SA SB] SM]. pose proof (len_nonneg e) as Le.
-    cbn [dec_dyn_list]. destruct (is_static f) eqn:Es.
+    cbn [tok_dyn_list] in Htok. rewrite Ee in Htok.
+    cbn [dec_dyn_list]. destruct (is_static f) eqn:Es; destruct Htok as [Htok1 Htok2].
     + rewrite (spairs_cons_static f e fs r Es) in Ss, Bs. rewrite (dpairs_cons_static f e fs r Es) in Sd, Ht, Bd |- *.
       rewrite pimg_cons in Ss. apply sits_padslot in Ss. destruct Ss as [S1 S2]. rewrite psz_cons, sumz_cons in Bs.
       pose proof (sumz_psz_nonneg (spairs fs r)).
-      rewrite (Hf v e m (off + so) Ee S1 ltac:(lia)). cbn [fst snd].
+      rewrite (Hf v e m (off + so) Ee S1 ltac:(lia) Htok1). cbn [fst snd].
       rewrite (IH HFt vs r (so + slot (len e)) k dnext Er); try assumption; [reflexivity| |lia].
       replace (off + (so + slot (len e))) with (off + so + slot (len e)) by lia. exact S2.
     + rewrite (spairs_cons_dyn f e fs r Es) in Ss, Bs. rewrite (dpairs_cons_dyn f e fs r Es) in Sd, Ht, Bd |- *.
@@ -613,7 +716,7 @@ Proof.
         pose proof (Ht O ltac:(rewrite psz_cons; cbn; lia) ltac:(lia)) as H0. cbn [firstn sumz fold_right] in H0.
         replace (k + Z.of_nat 0 - 1) with (k - 1) in H0 by lia. rewrite H0. lia. }
       rewrite Ho. rewrite guard_true by (rewrite Z.leb_refl, Hm; reflexivity).
-      rewrite (Hf v e m (off + dnext) Ee S1 ltac:(lia)). cbn [fst snd].
+      rewrite (Hf v e m (off + dnext) Ee S1 ltac:(lia) Htok1). cbn [fst snd].
       rewrite (IH HFt vs r so (k + 1) (dnext + slot (len e)) Er); try assumption.
       * rewrite Z.add_assoc. reflexivity.
       * replace (off + (dnext + slot (len e))) with (off + dnext + slot (len e)) by lia. exact S2.
@@ -665,10 +768,11 @@ Proof. induction l as [|a l IH]; cbn; [lia|]. destruct (f a); cbn; lia. Qed.
 
 Lemma RT_struct_dyn fs : Forall RT fs -> forallb is_static fs = false -> RT (TStruct fs).
 Proof.
-  intros HF Hst v img m off H Hs Hl. destruct v as [| |vs| | | |]; try discriminate.
+  intros HF Hst v img m off H Hs Hl Htok. destruct v as [| |vs| | | |]; try discriminate.
+  rewrite targets_ok_struct_eq, Hst in Htok.
   rewrite enc_struct_eq in H. destruct (enc_list fs vs) as [es|] eqn:Ee; [|discriminate]. inversion H; subst img. clear H.
   destruct (enc_list_length _ _ _ Ee) as [L1 L2].
-  pose proof (len_dpairs fs es L1) as Ld.
+  pose proof (len_dpairs fs es L1) as Ld. rewrite <- Ld in Htok.
   destruct (dpairs fs es) as [|p ps] eqn:Ed.
   { exfalso. change (len (@nil (ty * list cell))) with 0 in Ld.
     assert (filter is_static fs = fs -> forallb is_static fs = true).
@@ -728,7 +832,6 @@ Qed.
 
 
 (* ================= arrays of dynamically sized items ================= *)
-Definition szs (l : list (list cell)) : list Z := map (fun e => slot (len e)) l.
 Lemma szs_cons e l : szs (e :: l) = slot (len e) :: szs l.
 Proof. reflexivity. Qed.
 Lemma szs_nonneg l : Forall (fun x => 0 <= x) (szs l).
@@ -768,14 +871,19 @@ Qed.
 Lemma RT_array_dyn item shape order : RT item -> csize item = None ->
   forall sh items img m off,
   enc (TArray item shape order) (VArr sh items) = Some img -> sits img m off -> len img < 2^62 ->
+  targets_ok (TArray item shape order) (VArr sh items) m off ->
   dec (TArray item shape order) m off = Some (VArr sh items, len img).
 Proof.
-  intros HR Ci sh items img m off H Hs Hl.
+  intros HR Ci sh items img m off H Hs Hl Htok0. rewrite targets_ok_array_eq in Htok0.
   cbn [enc] in H. destruct (shape_ok shape sh && perm_ok order (length shape) && (len items =? prod sh) && words_fit item shape order sh) eqn:G; [|discriminate].
   apply andb_prop in G. destruct G as [G Gw].
   apply andb_prop in G. destruct G as [G Gn]. apply andb_prop in G. destruct G as [Gs Gp]. apply Z.eqb_eq in Gn.
   destruct (seqopt (map (enc item) items)) as [es|] eqn:Ee; [|discriminate]. inversion H; subst img. clear H.
   unfold words_fit in Gw. rewrite Ci in Gw. apply andb_prop in Gw. destruct Gw as [Fd Fs]. apply forallb_fits in Fd. apply forallb_fits in Fs.
+  assert (Htok : forall c, (c < length items)%nat -> targets_ok item (nth c items VNull) m
+             (off + (arr_header false shape + 8 * prod sh + sumz (firstn (Z.to_nat (Perm.mem_pos sh order (unpos sh (Z.of_nat c)))) (szs (es_mem_of sh order es)))))).
+  { intros c Hc. specialize (Htok0 c Hc). unfold item_pos in Htok0. rewrite Ci in Htok0. exact Htok0. }
+  clear Htok0. unfold es_mem_of in Htok.
   assert (Hst : is_static item = false) by (unfold is_static; rewrite Ci; reflexivity).
   unfold enc_array in *. rewrite Hst, Ci in *.
   set (es_mem := map (fun p => nth (Z.to_nat (logical_of_mem sh order p)) es []) (mem_positions sh)) in *.
@@ -832,6 +940,7 @@ Proof.
     assert (Hci : (c < length items)%nat) by (unfold len in Gn; lia).
     replace (off + (hdr + 8 * n + sumz (firstn (Z.to_nat mp) (szs es_mem)))) with (off + hdr + 8 * n + sumz (firstn (Z.to_nat mp) (szs es_mem))) by lia.
     apply (HR _ _ m _ (Nes c Hci) Sx).
+    2: { specialize (Htok c Hci). fold mp in Htok. replace (off + hdr + 8 * n + sumz (firstn (Z.to_nat mp) (szs es_mem))) with (off + (hdr + 8 * n + sumz (firstn (Z.to_nat mp) (szs es_mem)))) by lia. exact Htok. }
     (* the item lies inside the data area *)
     assert (Hin : In (nth (Z.to_nat mp) es_mem []) es_mem) by (apply nth_In; lia).
     rewrite Ex in Hin.
@@ -873,29 +982,136 @@ Proof.
 Qed.
 
 (* ================= the round trip, for every type of the grammar ================= *)
-(* Types containing Ref / UnionRef have no image under [enc] (their values live in a heap, see Heap/RefOps),
-   so the statement is vacuous for them and substantive for every reference-free type. *)
+(* ---- references ---- *)
+Lemma len_pad n : 0 <= n -> len (pad n) = n.
+Proof. intros H. unfold pad. apply len_repeat. exact H. Qed.
+
+Lemma RT_ref target : RT target -> RT (TRef target).
+Proof.
+  intros HR v img m off H Hs Hl Htok. destruct v as [| | | | |w|]; try discriminate; cbn [enc] in H; inversion H; subst img; clear H; cbn [targets_ok] in Htok.
+  - destruct Htok as [Hr Hn]. cbn [dec]. rewrite Hr. cbn [guard]. rewrite Hn, Z.eqb_refl. rewrite len_pad by lia. reflexivity.
+  - destruct Htok as [Hr [Hn [timg [Et [St [Lt Tt]]]]]]. cbn [dec]. rewrite Hr. cbn [guard].
+    replace (rd64 m off =? NULLVALUE) with false by (symmetry; apply Z.eqb_neq; exact Hn).
+    rewrite (HR w timg m (off + rd64 m off) Et St Lt Tt). cbn [fst]. rewrite len_pad by lia. reflexivity.
+Qed.
+
+Definition dec_pick (m : mem) (base : Z) : list ty -> nat -> option (val * Z) :=
+  fix pick (ms : list ty) (k : nat) : option (val * Z) :=
+    match ms, k with
+    | mt :: _, O => dec mt m base
+    | _ :: tl, S k' => pick tl k'
+    | [], _ => None
+    end.
+Definition tok_pick (m : mem) (base : Z) (w : val) : list ty -> nat -> Prop :=
+  fix pick (ms : list ty) (k : nat) : Prop :=
+    match ms, k with
+    | mt :: _, O => exists timg, enc mt w = Some timg /\ sits timg m base /\ len timg < 2^62 /\ targets_ok mt w m base
+    | _ :: tl, S k' => pick tl k'
+    | [], _ => False
+    end.
+Lemma dec_pick_ok m base w : forall ms, Forall RT ms -> forall k, tok_pick m base w ms k -> exists s, dec_pick m base ms k = Some (w, s).
+Proof.
+  induction ms as [|mt ms IH]; intros HF k Ht; [destruct k; destruct Ht|]. inversion HF as [|? ? Hm HFt]; subst.
+  destruct k as [|k]; cbn [tok_pick dec_pick] in *.
+  - destruct Ht as [timg [Et [St [Lt Tt]]]]. exists (len timg). apply (Hm w timg m base Et St Lt Tt).
+  - apply IH; assumption.
+Qed.
+
+Lemma RT_union ms : Forall RT ms -> RT (TUnion ms).
+Proof.
+  intros HF v img m off H Hs Hl Htok. destruct v as [| | | | | |k w]; try discriminate; cbn [enc] in H.
+  - inversion H; subst img; clear H. cbn [targets_ok] in Htok. destruct Htok as [Hr [Hn Hm1]].
+    cbn [dec]. rewrite Hr. cbn [guard]. rewrite Hn, Z.eqb_refl, Hm1. cbn [Z.eqb]. rewrite len_pad by lia. reflexivity.
+  - destruct (k <? length ms)%nat; [|discriminate]. inversion H; subst img; clear H.
+    change (targets_ok (TUnion ms) (VMember k w) m off) with
+      (in_rangeb m off 16 = true /\ rd64 m off <> NULLVALUE /\ rd64 m (off + 8) = Z.of_nat k /\ tok_pick m (off + rd64 m off) w ms k) in Htok.
+    destruct Htok as [Hr [Hn [Hk Hp]]].
+    destruct (dec_pick_ok m (off + rd64 m off) w ms HF k Hp) as [s Hd].
+    cbn [dec]. rewrite Hr. cbn [guard].
+    replace (rd64 m off =? NULLVALUE) with false by (symmetry; apply Z.eqb_neq; exact Hn).
+    rewrite Hk. replace (0 <=? Z.of_nat k) with true by (symmetry; apply Z.leb_le; lia). cbn [guard]. rewrite Nat2Z.id.
+    change ((fix pick (ms0 : list ty) (k0 : nat) {struct ms0} : option (val * Z) :=
+               match ms0 with
+               | [] => None
+               | mt :: tl => match k0 with 0%nat => dec mt m (off + rd64 m off) | S k' => pick tl k' end
+               end) ms k) with (dec_pick m (off + rd64 m off) ms k).
+    rewrite Hd. cbn [fst]. rewrite len_pad by lia. reflexivity.
+Qed.
+
+(* ================= the round trip, for every type of the grammar, references included ================= *)
+(* For reference-free types [targets_ok] is trivially true (targets_ok_ref_free below); for types with
+   Ref / UnionRef it says what the reference slots hold. *)
 Theorem RT_all : forall t, RT t.
 Proof.
   apply ty_ind'.
   - exact RT_scalar.
   - exact RT_string.
   - intros fs HF. destruct (forallb is_static fs) eqn:E; [apply RT_struct_static|apply RT_struct_dyn]; assumption.
-  - intros item shape order HR v img m off H Hs Hl. destruct v as [| | |sh items| | |]; try discriminate.
+  - intros item shape order HR v img m off H Hs Hl Htok. destruct v as [| | |sh items| | |]; try discriminate.
     destruct (csize item) as [isz|] eqn:Ci.
     + eapply RT_array_static; eassumption.
     + eapply RT_array_dyn; eassumption.
-  - intros t _ v img m off H. destruct v; discriminate.
-  - intros ms _ v img m off H. destruct v; discriminate.
+  - exact RT_ref.
+  - exact RT_union.
 Qed.
+
+(* ---- reference-free types: no condition on the memory beyond the image ---- *)
+Definition TOK (t : ty) : Prop := has_refs t = false -> forall v img m off, enc t v = Some img -> targets_ok t v m off.
+
+Lemma existsb_false_cons {A} (f : A -> bool) x l : existsb f (x :: l) = false -> f x = false /\ existsb f l = false.
+Proof. cbn. intros H. apply orb_false_iff in H. exact H. Qed.
+
+Lemma tok_static_list_free m : forall fs, Forall TOK fs -> existsb has_refs fs = false -> forall vs es, enc_list fs vs = Some es ->
+  forall o, tok_static_list m fs vs o.
+Proof.
+  induction fs as [|f fs IH]; intros HF Hr vs es He o.
+  - destruct vs; cbn in He; [exact I|discriminate].
+  - destruct vs as [|v vs]; cbn in He; [discriminate|].
+    destruct (enc f v) as [e|] eqn:Ee; [|discriminate]. destruct (enc_list fs vs) as [r|] eqn:Er; [|discriminate].
+    inversion HF as [|? ? Hf HFt]; subst. destruct (existsb_false_cons _ _ _ Hr) as [R1 R2].
+    cbn [tok_static_list]. rewrite Ee. split; [apply (Hf R1 v e m o Ee)|]. eapply IH; eassumption.
+Qed.
+Lemma tok_dyn_list_free m off : forall fs, Forall TOK fs -> existsb has_refs fs = false -> forall vs es, enc_list fs vs = Some es ->
+  forall so dnext, tok_dyn_list m off fs vs so dnext.
+Proof.
+  induction fs as [|f fs IH]; intros HF Hr vs es He so dnext.
+  - destruct vs; cbn in He; [exact I|discriminate].
+  - destruct vs as [|v vs]; cbn in He; [discriminate|].
+    destruct (enc f v) as [e|] eqn:Ee; [|discriminate]. destruct (enc_list fs vs) as [r|] eqn:Er; [|discriminate].
+    inversion HF as [|? ? Hf HFt]; subst. destruct (existsb_false_cons _ _ _ Hr) as [R1 R2].
+    cbn [tok_dyn_list]. rewrite Ee. destruct (is_static f); (split; [apply (Hf R1 v e m _ Ee)|eapply IH; eassumption]).
+Qed.
+
+Theorem targets_ok_ref_free : forall t, TOK t.
+Proof.
+  apply ty_ind'.
+  - intros k _ v img m off _. destruct v; exact I.
+  - intros _ v img m off _. destruct v; exact I.
+  - intros fs HF Hr v img m off He. destruct v as [| |vs| | | |]; try discriminate. cbn [has_refs] in Hr.
+    rewrite enc_struct_eq in He. destruct (enc_list fs vs) as [es|] eqn:Ee; [|discriminate].
+    rewrite targets_ok_struct_eq. destruct (forallb is_static fs); [eapply tok_static_list_free|eapply tok_dyn_list_free]; eassumption.
+  - intros item shape order HT Hr v img m off He. destruct v as [| | |sh items| | |]; try discriminate. cbn [has_refs] in Hr.
+    rewrite targets_ok_array_eq. cbn [enc] in He.
+    destruct (shape_ok shape sh && perm_ok order (length shape) && (len items =? prod sh) && words_fit item shape order sh); [|discriminate].
+    destruct (seqopt (map (enc item) items)) as [es|] eqn:Ee; [|discriminate].
+    destruct (seqopt_map_spec (enc item) VNull [] items es Ee) as [L N].
+    intros c Hc. apply (HT Hr _ _ m _ (N c Hc)).
+  - intros t _ Hr. discriminate.
+  - intros ms _ Hr. discriminate.
+Qed.
+
+(* the round trip for reference-free types: no side condition besides the size bound *)
+Theorem RT_ref_free t v img m off : has_refs t = false ->
+  enc t v = Some img -> sits img m off -> len img < 2^62 -> dec t m off = Some (v, len img).
+Proof. intros Hr He Hs Hl. apply (RT_all t v img m off He Hs Hl). exact (targets_ok_ref_free t Hr v img m off He). Qed.
 
 (* the same statement about raw buffers: wherever the bytes of a buffer carry the image (padding cells
    free), decoding at that offset returns the value and the image length as the object's size *)
-Theorem dec_enc_buffer t v img pre bs post :
+Theorem dec_enc_buffer t v img pre bs post : has_refs t = false ->
   enc t v = Some img -> cells_match img bs = true -> len img < 2^62 ->
   dec t (pre ++ bs ++ post) (len pre) = Some (v, len img).
 Proof.
-  intros He Hc Hl. apply (RT_all t v img (pre ++ bs ++ post) (len pre) He); [|exact Hl].
+  intros Hr He Hc Hl. apply (RT_ref_free t v img (pre ++ bs ++ post) (len pre) Hr He); [|exact Hl].
   apply cells_match_sits. exact Hc.
 Qed.
 
@@ -912,9 +1128,9 @@ Example RT_nonvacuous :
 Proof. cbv zeta. eexists. split; [vm_compute; reflexivity|reflexivity]. Qed.
 
 (* decoding does not depend on the buffer or the offset at which the image lies *)
-Theorem placement_independent t v img m off m' off' :
+Theorem placement_independent t v img m off m' off' : has_refs t = false ->
   enc t v = Some img -> len img < 2^62 -> sits img m off -> sits img m' off' -> dec t m off = dec t m' off'.
-Proof. intros He Hl S1 S2. rewrite (RT_all t v img m off He S1 Hl), (RT_all t v img m' off' He S2 Hl). reflexivity. Qed.
-Theorem dec_enc_size t v img m off :
+Proof. intros Hr He Hl S1 S2. rewrite (RT_ref_free t v img m off Hr He S1 Hl), (RT_ref_free t v img m' off' Hr He S2 Hl). reflexivity. Qed.
+Theorem dec_enc_size t v img m off : has_refs t = false ->
   enc t v = Some img -> sits img m off -> len img < 2^62 -> exists v', dec t m off = Some (v', len img).
-Proof. intros H1 H2 H3. exists v. exact (RT_all t v img m off H1 H2 H3). Qed.
+Proof. intros Hr H1 H2 H3. exists v. exact (RT_ref_free t v img m off Hr H1 H2 H3). Qed.
